@@ -113,7 +113,15 @@ class C01b(Obligation):
 
     def configs(self, tier):
         which = (0, 5, 10, 11, 12) if tier == 'quick' else range(len(BROKEN))
-        return [dict(snippet=i, fn=f) for i in which for f in FUNCTIONS]
+        # following imports in error nodes only concerns identifiers: a snippet without a single name token is skipped
+        def has_name(src):
+            leaf = jedi.Script(src)._module_node.get_first_leaf()
+            while leaf is not None:
+                if leaf.type == 'name':
+                    return True
+                leaf = leaf.get_next_leaf()
+            return False
+        return [dict(snippet=i, fn=f) for i in which for f in FUNCTIONS if f != 'error_imports' or has_name(BROKEN[i])]
 
     def scenario(self, ctx, cfg):
         src = BROKEN[cfg['snippet']]
